@@ -364,6 +364,30 @@ def rule_i(repo, chk):
 TRIAGED_REWRITE = {}
 
 
+def rule_j(repo, chk):
+    chk.clause('C07.j', 'range sanity: the range branch of extract._find_nodes rejects an end that lies before the start (until_pos < pos) '
+                        'with RefactoringError before either position is used to look up leaves - a reversed range otherwise reaches the '
+                        'index arithmetic of _remove_unwanted_expression_nodes (UnboundLocalError/IndexError/AttributeError)')
+    f = repo.find(EXT, '_find_nodes')
+    c = cfg_of(f)
+    order_tests = [n for n in c.nodes if n.kind == 'test' and isinstance(n.ast, ast.Compare) and len(n.ast.ops) == 1
+                   and isinstance(n.ast.ops[0], (ast.Lt, ast.Gt, ast.LtE, ast.GtE)) and {norm(n.ast.left), norm(n.ast.comparators[0])} == {'pos', 'until_pos'}]
+    chk.ob('C07.j', bool(order_tests), f, 'the two ends of the range are compared with each other')
+    uses = [n for n in c.nodes if node_has(n, lambda x: isinstance(x, ast.Call) and call_name(x) in ('get_leaf_for_position', '_remove_unwanted_expression_nodes')
+                                            and any(norm(a) == 'until_pos' for a in x.args))]
+    chk.floor('C07.j', len(uses), 1, '(uses of until_pos in _find_nodes)')
+    for u in uses:
+        p_ = c.reach([c.entry], lambda n: n is u, block_node=lambda n: n in order_tests, kinds={'n', 'T', 'F'})
+        chk.ob('C07.j', p_ is None and bool(order_tests), u.ast, 'the order test comes before `%s`' % short(u.ast, 60), c.describe(p_) if p_ else '')
+    for t in order_tests:
+        # the branch for "end before start" raises RefactoringError
+        reversed_edge = 'T' if (isinstance(t.ast.ops[0], (ast.Lt, ast.LtE)) and norm(t.ast.left) == 'until_pos') or \
+            (isinstance(t.ast.ops[0], (ast.Gt, ast.GtE)) and norm(t.ast.left) == 'pos') else 'F'
+        succ = [m for m, k in t.succ if k == reversed_edge]
+        ok = bool(succ) and all(isinstance(m.ast, ast.Raise) and raised_name(m.ast) == 'RefactoringError' for m in succ)
+        chk.ob('C07.j', ok, t.ast, 'a reversed range is answered with RefactoringError')
+
+
 def describe(chk):
     chk.undecided('that difflib\'s output applies cleanly and that parso\'s refactor preserves all bytes outside the rewritten nodes (library behaviour); '
                   'which nodes a refactoring rewrites')
